@@ -21,6 +21,7 @@ import (
 
 	"verif/internal/explore"
 	"verif/internal/gen"
+	"verif/internal/oracle"
 	"verif/internal/world"
 )
 
@@ -248,7 +249,10 @@ func c17Explore(rep *explore.Report, w *world.World, c c17Case, depth int, kinds
 	sel, _ := metav1.LabelSelectorAsSelector(sts.Spec.Selector)
 	var initialRevs []string
 	for _, n := range world.SortedKeys(seed.API.Revs) {
-		if sel.Matches(labels.Set(seed.API.Revs[n].Labels)) {
+		// the revisions "of the set": matched by its selector and controlled by it (or by nobody); what the helper does
+		// to a matching revision of another owner is not something the property fixes
+		r := seed.API.Revs[n]
+		if ref := oracle.ControllerOf(r); sel.Matches(labels.Set(r.Labels)) && (ref == nil || ref.UID == sts.UID) {
 			initialRevs = append(initialRevs, n)
 		}
 	}
@@ -380,7 +384,7 @@ func init() {
 			depth = 3
 		}
 		kinds := []string{world.FErr500, world.FTimeout, world.FConflict, world.FGone, world.FExists, world.FExistsOther, world.FCrashBefore, world.FCrashAfter}
-		rep.Rule = fmt.Sprintf("the real helper.Upgrade on the API model: selector{app=web | app In (web) | app=web and app Exists | app Exists | app Exists and tier NotIn (cache) | app=web and canary DoesNotExist} x revision populations of size 0..3 over {matching, non-matching, foreign-owned} x Advanced set{absent, present equal, present different, present with a superset of the spec (extra template labels/annotations, node selector, optional fields)}; for every API call position of the run x fault kind %v applicable to the verb, then re-run from the resulting state with a further fault at every position, to depth %d, finally re-run without faults; oracle: at the delete of the built-in set an Advanced set with equal spec and status exists, propagation is Orphan, every revision listed at the start carries the marker and no longer matches the selector; no write on pods/claims; a fault-free re-run succeeds and the final state equals the uninterrupted run's (UIDs of the new object normalised; not compared when a `gone` or `existsOther` fault, i.e. a concurrent deletion or a concurrent creation of a different object by someone else, changed the world). Built-in sets whose spec uses a field the Advanced API does not have (start ordinal, minReadySeconds, claim retention policy) are run once each: the built-in set may only go if the Advanced spec says everything the built-in spec says (judged against the built-in object, not against the helper's own conversion), and a helper that declines leaves no change behind. Non-trivial = at least one fault injected.", kinds, depth)
+		rep.Rule = fmt.Sprintf("the real helper.Upgrade on the API model: selector{app=web | app In (web) | app=web and app Exists | app Exists | app Exists and tier NotIn (cache) | app=web and canary DoesNotExist} x revision populations of size 0..3 over {matching, non-matching, foreign-owned} x Advanced set{absent, present equal, present different, present with a superset of the spec (extra template labels/annotations, node selector, optional fields)}; for every API call position of the run x fault kind %v applicable to the verb, then re-run from the resulting state with a further fault at every position, to depth %d, finally re-run without faults; oracle: at the delete of the built-in set an Advanced set with equal spec and status exists, propagation is Orphan, every revision of the set (matched by the selector at the start and controlled by the built-in set or by nobody) carries the marker and no longer matches the selector; no write on pods/claims; a fault-free re-run succeeds and the final state equals the uninterrupted run's (UIDs of the new object normalised; not compared when a `gone` or `existsOther` fault, i.e. a concurrent deletion or a concurrent creation of a different object by someone else, changed the world). Built-in sets whose spec uses a field the Advanced API does not have (start ordinal, minReadySeconds, claim retention policy) are run once each: the built-in set may only go if the Advanced spec says everything the built-in spec says (judged against the built-in object, not against the helper's own conversion), and a helper that declines leaves no change behind. Non-trivial = at least one fault injected.", kinds, depth)
 		rep.Assumptions = []string{"the caller re-runs the helper with the same built-in object it started with", "API model of DESIGN.md Appendix A; the built-in controller and the garbage collector are not running during the upgrade"}
 		var cases []c17Case
 		var revPops [][]string
@@ -465,7 +469,8 @@ func c17Unrepresentable(rep *explore.Report) {
 				selr, _ := metav1.LabelSelectorAsSelector(sts.Spec.Selector)
 				var initial []string
 				for _, k := range world.SortedKeys(seed.API.Revs) {
-					if selr.Matches(labels.Set(seed.API.Revs[k].Labels)) {
+					r := seed.API.Revs[k]
+					if ref := oracle.ControllerOf(r); selr.Matches(labels.Set(r.Labels)) && (ref == nil || ref.UID == sts.UID) {
 						initial = append(initial, k)
 					}
 				}
